@@ -3,7 +3,7 @@
 patch=$1; shift
 git -C /repo apply "$patch" || { echo "patch does not apply"; exit 3; }
 for p in "$@"; do
-  /verif/bin/vcgo check -prop $p 2>&1 | grep -E "VIOLATION|FAILED|UNVERIFIABLE|VACUOUS|obligations,|KNOWN|ERROR" | cut -c1-300
+  /verif/bin/vcgo check -prop $p 2>&1 | grep -E "VIOLATION|FAILED|UNVERIFIABLE|VACUOUS|obligations,|KNOWN|ERROR|load failed|declared and not used" | cut -c1-300
 done
 git -C /repo apply -R "$patch"
 git -C /repo status --short | grep -v verif_contracts
